@@ -348,3 +348,17 @@ Definition gsub_apply_default_v (m : mode) (t : layout_table) (fvt : option fv_t
     lks <- lookups_for_mask_v m t script_tag lang fv mask2 ;;
     '(gs', _) <- gsub_apply_lookups_impl m t gd lks gs0 0 (len gs0) ;;
     Ok (replace_missing_glyphs (strip_joiners gs') num_glyphs).
+
+(* ------------------------------------------------------------------ the Mask path without a FeatureVariations table *)
+(* apply_rvrn / gsub_apply_default when no substitution is in force (feature_variations = None): what
+   `tuple.is_some()` alone changes is that the lookups of the mask FeatureMask::RVRN run first *)
+Definition apply_rvrn_mask (m : mode) (t : layout_table) (gd : option gdef) (script_tag : Z) (lang : option Z)
+  (gs : list glyph) : outcome (list glyph) :=
+  lks <- lookups_for_mask t script_tag lang (Z.shiftl 1 MASK_BIT_RVRN) ;;
+  '(gs', _) <- gsub_apply_lookups_impl m t gd lks gs 0 (len gs) ;;
+  Ok gs'.
+
+Definition gsub_apply_default_t (m : mode) (t : layout_table) (gd : option gdef) (script_tag : Z) (lang : option Z)
+  (mask : Z) (has_tuple : bool) (num_glyphs : Z) (gs : list glyph) : outcome (list glyph) :=
+  gs0 <- (if has_tuple then apply_rvrn_mask m t gd script_tag lang gs else Ok gs) ;;
+  gsub_apply_default m t gd script_tag lang mask num_glyphs gs0.
